@@ -46,15 +46,17 @@ type vStream struct {
 	grpc.ClientStream
 	w     *vWorldRPC
 	id    int
-	sent  []any
+	sent  []any // messages the server side of this stream actually received
+	sends int
 	recvs int
 }
 
 func (s *vStream) SendMsg(m any) error {
-	s.sent = append(s.sent, m)
-	if vBool(fmt.Sprintf("stream%d_send%d_fails", s.id, len(s.sent))) {
+	s.sends++
+	if vBool(fmt.Sprintf("stream%d_send%d_fails", s.id, s.sends)) {
 		return vErrBroken
 	}
+	s.sent = append(s.sent, m)
 	return nil
 }
 
